@@ -36,15 +36,19 @@ PROPS = {
         unreached=["EntryWriter::finish (document assembly, newline framing)", "write_all_vectored (see C16)", "json_string.rs (serde_json)"],
     ),
     "C08": dict(
-        verus=[("emf_cfg", {"profile_debug": True}), ("emf_cfg", {"profile_debug": False})],
-        technique="Verus function contracts on the extracted real Emf::builder / all_validations / no_validations / skip_all_validations, once per build profile",
+        verus=[("emf_cfg", {"profile_debug": True}), ("emf_cfg", {"profile_debug": False}), ("emf_validate", {})],
+        technique="Verus function contracts on the extracted real Emf::builder / all_validations / no_validations / skip_all_validations (once per build profile) and on validate_name / timestamp / validate_string / string over a trusted ghost-map model of hashbrown's entry API",
         level_text="Deductive proof (Verus/z3) that every documented way of enabling validations really enables all three validation switches in BOTH build profiles "
-                   "(cfg(debug_assertions) resolved mechanically per profile), that no_validations disables all, and that skip_all_validations is monotone and touches nothing else.",
+                   "(cfg(debug_assertions) resolved mechanically per profile), that no_validations disables all, and that skip_all_validations is monotone and touches nothing else; "
+                   "that names are rejected exactly when empty or `_aws` (iff names are validated), a second timestamp is an error, and the per-name automaton of string members "
+                   "(absent -> written, declared dimension -> written, written -> error and map unchanged) holds for the real validate_string body, with the frame 'validation touches no output buffer' and "
+                   "'the uniqueness switch only gates the check'; plus an inductive lemma that of n writes under one name at most one is accepted. The duplicate / dimension checks inside ValueWriter::metric are not reached.",
         level_note="Trusted: EmfBuilder::build forwards the switches unchanged (assumed contract, checked syntactically), derive(Default) on three bools is all-false, rewrites R4/R6/R7/R8, Verus + z3. "
                    "The record-level invariant 'no two members share a name' (hashbrown code in ValueWriter::metric) is not reached.",
         explanation="validation switches for both build profiles",
-        assumptions=["EmfBuilder::build forwards `validation` unchanged", "derive(Default) for Validation is all-false"],
-        unreached=["ValueWriter::metric duplicate / dimension checks (hashbrown entry_ref, peekable)", "EntryDimensions config checks", "missing-dimension sweep in finish()"],
+        assumptions=["EmfBuilder::build forwards `validation` unchanged", "derive(Default) for Validation is all-false",
+                     "hashbrown entry_ref / OccupiedEntry::{get, get_mut, insert, remove} / VacantEntryRef::insert behave as a map keyed by the name's text (units/emf_validate.py prelude)"],
+        unreached=["ValueWriter::metric duplicate / dimension checks (peekable iterator, or_insert_with closures)", "EntryDimensions config checks (dyn Any downcast)", "missing-dimension sweep in finish() (map iteration)"],
     ),
     "C01": dict(
         verus=[("bgq", {}, ["push", "consume", "report_validation_error", "drain_until_deadline"])],
